@@ -2021,8 +2021,7 @@ func (d *DFA) IsMatchReverse(cache *DFACache, haystack []byte, start, end int) b
 
 	currentState := d.getStartStateForReverse(cache, haystack, end)
 	if currentState == nil {
-		_, _, matched := d.pikevm.Search(haystack[start:end])
-		return matched
+		return d.nfaFallbackReverse(haystack, start, end) >= 0
 	}
 
 	// With 1-byte match delay, start states are never match states.
@@ -2049,8 +2048,7 @@ func (d *DFA) IsMatchReverse(cache *DFACache, haystack []byte, start, end int) b
 		case InvalidState:
 			currentState = cache.getState(sid)
 			if currentState == nil {
-				_, _, matched := d.pikevm.Search(haystack[start:end])
-				return matched
+				return d.nfaFallbackReverse(haystack, start, end) >= 0
 			}
 			nextState, err := d.determinize(cache, currentState, b)
 			if err != nil {
@@ -2060,8 +2058,7 @@ func (d *DFA) IsMatchReverse(cache *DFACache, haystack []byte, start, end int) b
 					// beginning (at most MaxCacheClears times, then the NFA takes over).
 					return d.IsMatchReverse(cache, haystack, start, end)
 				}
-				_, _, matched := d.pikevm.Search(haystack[start:end])
-				return matched
+				return d.nfaFallbackReverse(haystack, start, end) >= 0
 			}
 			if nextState == nil {
 				return false
@@ -2127,12 +2124,60 @@ func (d *DFA) getStartStateForReverse(cache *DFACache, haystack []byte, end int)
 	return insertedState
 }
 
-// nfaFallbackReverse handles NFA fallback for reverse search.
+// nfaFallbackReverse handles the give-up case of the reverse searches: the
+// cache cannot hold the automaton (or a state set is too large), so the same
+// NFA state sets the DFA would build are walked directly, without caching
+// them. It mirrors the reverse search loop step by step (start set chosen by
+// the byte after the region, 1-byte match delay, end-of-region match check),
+// so it returns what the DFA returns with an unlimited cache.
+//
+// The DFA's PikeVM cannot be used here: it simulates the reversed automaton
+// forwards.
 func (d *DFA) nfaFallbackReverse(haystack []byte, start, end int) int {
-	// For reverse fallback, we need to search the region and find match start
-	matchStart, _, matched := d.pikevm.Search(haystack[start:end])
-	if !matched {
+	if end <= start || end > len(haystack) {
 		return -1
 	}
-	return start + matchStart
+	builder := NewBuilderWithWordBoundary(d.nfa, d.config, d.hasWordBoundary)
+	// same choice as getStartStateForReverse: the byte after the region
+	kind := StartText
+	if end < len(haystack) {
+		switch nb := haystack[end]; {
+		case nb == '\n':
+			kind = StartLineLF
+		case nb == '\r':
+			kind = StartLineCR
+		case isWordByte(nb):
+			kind = StartWord
+		default:
+			kind = StartNonWord
+		}
+	}
+	startState, _ := ComputeStartStateWithStride(builder, d.nfa, StartConfig{Kind: kind, Anchored: false}, d.AlphabetLen())
+	states := startState.NFAStates()
+	fromWord := startState.IsFromWord()
+
+	lastMatch := -1
+	for at := end - 1; at >= start; at-- {
+		b := haystack[at]
+		if d.hasEndLine && b == '\n' {
+			states = builder.epsilonClosure(states, LookEndLine)
+		}
+		// 1-byte match delay: a match in the set before the step is
+		// reported after it, at position at+1
+		sourceHasMatch := builder.containsMatchState(states)
+		next := builder.moveWithWordContextBreak(states, b, fromWord, sourceHasMatch && d.config.BreakAtMatch)
+		if sourceHasMatch {
+			lastMatch = at + 1
+		}
+		if len(next) == 0 {
+			return lastMatch
+		}
+		states = next
+		fromWord = isWordByte(b)
+	}
+	// delayed match at the start of the region
+	if containsNFAMatch(d.nfa, states) {
+		lastMatch = start
+	}
+	return lastMatch
 }
